@@ -59,8 +59,17 @@ def random_graph_script(rng, n_nodes, n_queries):
     # history: nodes of the decoy graph merged into G leave connections from G's nodes to nodes that still carry the
     # other graph's id; queries on G must not see them
     if rng.random() < 0.5:
-        for x in rng.sample(ids, rng.choice([1, 2])):
+        merged = rng.sample(ids, rng.choice([2, 2, 3]))
+        for x in merged:
             s.append({"op": "MergeNodes", "g": "G", "n": x, "h": "decoy", "pol": {}})
+        # the merged nodes are now two hops apart THROUGH the other graph: ask for the paths between them
+        for a in merged:
+            for z in merged:
+                if a != z:
+                    s.append({"op": "ShortestPath", "g": "G", "a": a, "z": z, "rel": ""})
+                    s.append({"op": "ShortestPath", "g": "G", "a": a, "z": z, "rel": rng.choice(rels)})
+        s.append({"op": "PathWithHops", "g": "G", "a": merged[0], "z": merged[1], "hops": []})
+        s.append({"op": "FirstNbr", "g": "G", "n": merged[0], "rel": "r1", "cls": "K1"})
     for _ in range(n_queries):
         k = rng.random()
         if k < .25:
